@@ -596,40 +596,7 @@ func checkRequirement(c *Ctx, w *World, s bceSite, req string) (bool, string) {
 		if starts != 1 || root.Obj == nil {
 			return false, "the index has no single start at NumIn()-1"
 		}
-		// every call of the enclosing declaration sits in the true branch of an IsVariadic() test
-		calls := 0
-		for _, g := range w.Funcs {
-			if g.Body == nil || g.Pkg != root.Pkg {
-				continue
-			}
-			gx := w.expander(g)
-			bad := ""
-			walkNoLit(g.Body, func(n ast.Node) bool {
-				call, ok := n.(*ast.CallExpr)
-				if !ok || calleeOf(g.Pkg.TypesInfo, call) != root.Obj {
-					return true
-				}
-				calls++
-				guarded := false
-				child := ast.Node(call)
-				for p := w.parent[call]; p != nil && p != g.Node(); child, p = p, w.parent[p] {
-					if is, ok := p.(*ast.IfStmt); ok && child == ast.Node(is.Body) && strings.HasSuffix(gx.str(is.Cond), ".IsVariadic()") {
-						guarded = true
-					}
-				}
-				if !guarded {
-					bad = w.Pos(call.Pos())
-				}
-				return true
-			})
-			if bad != "" {
-				return false, "the enclosing function is called at " + bad + " outside an IsVariadic() test"
-			}
-		}
-		if calls == 0 {
-			return false, "no call of the enclosing function found"
-		}
-		return true, ""
+		return calledOnlyUnderIsVariadic(w, root)
 	case req == "filled-by-range":
 		ix, ok := s.Node.(*ast.IndexExpr)
 		if !ok {
@@ -775,4 +742,45 @@ func otherRuleObligations(w *World, rule string) []Obligation {
 	pc.run(tmp)
 	otherRuleCache[prop] = tmp.Obs
 	return tmp.Obs
+}
+
+// calledOnlyUnderIsVariadic: every call of the declaration sits in the true branch of a T.IsVariadic() test (a variadic
+// function type has at least one parameter: T.NumIn() >= 1 inside).
+func calledOnlyUnderIsVariadic(w *World, root *Func) (bool, string) {
+	if root == nil || root.Obj == nil {
+		return false, "not a declared function"
+	}
+	calls := 0
+	for _, g := range w.Funcs {
+		if g.Body == nil || g.Pkg != root.Pkg {
+			continue
+		}
+		gx := w.expander(g)
+		bad := ""
+		walkNoLit(g.Body, func(n ast.Node) bool {
+			call, ok := n.(*ast.CallExpr)
+			if !ok || calleeOf(g.Pkg.TypesInfo, call) != root.Obj {
+				return true
+			}
+			calls++
+			guarded := false
+			child := ast.Node(call)
+			for p := w.parent[call]; p != nil && p != g.Node(); child, p = p, w.parent[p] {
+				if is, ok := p.(*ast.IfStmt); ok && child == ast.Node(is.Body) && strings.HasSuffix(gx.str(is.Cond), ".IsVariadic()") {
+					guarded = true
+				}
+			}
+			if !guarded {
+				bad = w.Pos(call.Pos())
+			}
+			return true
+		})
+		if bad != "" {
+			return false, "the enclosing function is called at " + bad + " outside an IsVariadic() test"
+		}
+	}
+	if calls == 0 {
+		return false, "no call of the enclosing function found"
+	}
+	return true, ""
 }
